@@ -117,13 +117,13 @@ def ghost_typing():
         lq = None
         if g[0] == "cmp" and len(g[1]) == 1 and ((g[1][0] in ("NotEq", "Gt") and g[2][1] == fx.C(0)) or (g[1][0] == "GtE" and g[2][1] == fx.C(1))):
             lq = g[2][0]
-        elif g[:1] == ("callres",):
+        elif g[:1] == ("callres",) and g[2] == "len":
             lq = g
         if lq is not None and lq[:1] == ("callres",) and lq[2] == "len":
             queue = lq[3][0]
-        elif g[0] in ("var", "loopvar", "list"):
-            queue = g
-        start = bfs[0][3][1] if len(bfs[0][3]) > 1 else None
+        elif lq is None and g[0] in ("var", "loopvar", "list", "callres"):
+            queue = g                          # `while q:` -- the list itself is the guard
+        start = bfs[0][3][1] if len(bfs[0][3]) > 1 else dict(bfs[0][4]).get("i_start")        # second positional argument or its keyword
         reach = ("callres", bfs[0][1], bfs[0][2], bfs[0][3], bfs[0][4])
         ok = (queue is not None and start == ("item", queue, fx.C(0)) and len(rem) == 1 and rem[0][6][1] == queue and rem[0][3][0][:1] == ("iter",)
               and rem[0][3][0][1] == reach and dict(bfs[0][4]).get("directed") == fx.C(False))
